@@ -130,6 +130,12 @@ structure ImplSummary where
   warn : Bool
   warnText : String   -- canonical warning tag of the harness ("-", "range", "need:ge:6")
   pct : String
+  /-- the warning's claim tried out by the harness on the real code: the size it names, whether a
+  sample of that size gets a finite interval at this confidence, whether one value fewer still gets
+  an infinite one -/
+  wn : Nat := 0
+  wfin : Bool := false
+  wprev : Bool := false
 
 def okIf (b : Bool) (reason : String) : String := if b then "ok" else reason
 
@@ -286,8 +292,9 @@ def judgeNothing (vals : List F64.Bits) (conf : F64.Bits) (qlo qhi : Nat) (needT
       else "ok"
     | _, _ => "not-finite"
   let infEnd := F64.isInf i.lo || F64.isInf i.hi
-  -- the warning names the least sample size in 2..50 whose interval (external data) is finite
-  let needN := (List.range 49).find? fun k => match needTab[k]? with
+  -- the warning names the least sample size ABOVE the one at hand (and ≥ 2, ≤ 50) whose interval
+  -- (external data) is finite
+  let needN := (List.range 49).find? fun k => n < k + 2 && match needTab[k]? with
     | some (lo, hi) => 0 < lo && hi ≤ k + 2
     | none => false
   let wantText := match needN with
@@ -296,8 +303,19 @@ def judgeNothing (vals : List F64.Bits) (conf : F64.Bits) (qlo qhi : Nat) (needT
   let warn :=
     if i.warn != infEnd then (if infEnd then "missing-warning" else "spurious-warning")
     else okIf (!infEnd || i.warnText == wantText) "wrong-sample-size"
+  -- "a warning saying how many samples are needed": `need >= N` must mean that N values suffice for a
+  -- finite interval at this confidence and N − 1 do not; `need > 50` that 50 do not suffice
+  let needn :=
+    if i.warnText.startsWith "need:ge:" then
+      (if !i.wfin then "named-size-still-infinite" else if !i.wprev then "fewer-suffice" else "ok")
+    else if i.warnText.startsWith "need:gt:" then okIf (!i.wfin) "50-suffice"
+    else "ok"
+  -- … and the sample that is told so has fewer than N values (F25: the interval can be finite at a
+  -- smaller size and infinite at the size at hand, QuantileCI being non-monotone at n = 30 → 31)
+  let have_ := if i.warnText.startsWith "need:ge:" then okIf (n < i.wn) "already-has-the-named-size" else "ok"
   showVerdicts [("centre", centre), ("ends", ends), ("bracket", bracket), ("conf", confV), ("warn", warn),
-                ("pct", judgePct i.center i.lo i.hi i.pct)] ++ kfTag (classX1 xs) "X1"
+                ("pct", judgePct i.center i.lo i.hi i.pct), ("needn", needn), ("have", have_)]
+    ++ kfTag (classX1 xs) "X1"
 
 /-- tolerance for the running mean m += (x−m)/(i+1): `meanUlps` units in the last place of the
 largest magnitude in the sample -/
